@@ -8,7 +8,13 @@ OBLIGATIONS = ['Yalafi.C16_protect_no_quote', 'Yalafi.C16_protect_lt_count', 'Ya
                'Yalafi.C16_region_text', 'Yalafi.C16_line_numbers', 'Yalafi.C16_rows', 'Yalafi.C16_no_problems', 'Yalafi.C16_each_match_once',
                'Yalafi.C16_highlight_text', 'Yalafi.C16_overlap_text', 'Yalafi.C16_no_overlaps', 'Yalafi.C16_regions_ordered', 'Yalafi.C16_regions_disjoint',
                'Yalafi.C16_whole_file', 'Yalafi.C16_whole_file_negative',
-               'Yalafi.C16ex.run0', 'Yalafi.C16ex.runNeg', 'Yalafi.C16_region_text_needs_final_newline']
+               'Yalafi.C16ex.run0', 'Yalafi.C16ex.runNeg', 'Yalafi.C16_region_text_needs_final_newline',
+               # the text of the report (Model/HtmlText.lean, correspondence: corr_htmltext.py)
+               'Yalafi.C16_protect_title_chars', 'Yalafi.C16_title_safe', 'Yalafi.C16_href_safe', 'Yalafi.C16_tags_from_templates', 'Yalafi.C16_tags_shape',
+               'Yalafi.C16_text_roundtrip', 'Yalafi.C16_text_roundtrip_no_tab', 'Yalafi.C16_tab_not_invertible',
+               'Yalafi.C16_highlight_pieces', 'Yalafi.C16_generate_highlight', 'Yalafi.C16_regex_on_protected',
+               'Yalafi.C16ex.varsOk', 'Yalafi.C16ex.hostile_title', 'Yalafi.C16ex.hostile_tag', 'Yalafi.C16ex.hostile_tag_tokens', 'Yalafi.C16ex.hostile_report',
+               'Yalafi.C16ex.file_name_becomes_markup', 'Yalafi.C16ex.unsure_crashes']
 
 ALLOWED = {'html', 'head', 'meta', 'body', 'table', 'tr', 'td', 'span', 'a', 'br', 'h3', 'h2', 'ul', 'li', 'hr'}
 HOSTILE = ['<', '>', '&', '"', "'", '<script>', '</td>', '&amp;', '\t', '  ', 'x', 'word', 'ä', '€', '<br>', '">', '-->', '<!--',
@@ -212,6 +218,8 @@ def run(ctx):
     if ctx.model_ok:
         import corr_html
         corr_html.html_corr(ctx, ctx.scale(6000, 60000))
+        import corr_htmltext
+        corr_htmltext.htmltext_corr(ctx, ctx.scale(24000, 120000))
 
 def impl_protect(s):
     import impl, importlib
